@@ -89,6 +89,10 @@ Definition judge (s : scn) : sexp :=
   match obs_ret o with
   | None => L [sym "specfail"; sym "c11-no-return"; L []]
   | Some tr =>
+    (* returned: every connect has had its disconnect (Props/C11.v c11_callbacks_balanced_at_return) *)
+    if match last_dis cbs None with None => negb (match cbs with [] => true | _ => false end) | Some _ => false end then
+      L [sym "specfail"; sym "c11-unbalanced"; L []]
+    else
     if return_bound s <? tr - Z.max 0 (s_cancel s) then L [sym "specfail"; sym "timing-c11-return-bound"; L [I tr]]
     else
     match obs_wg o with
